@@ -53,10 +53,17 @@ def jobs(tier, seed):
     for m in (range(1, 5) if tier == "quick" else range(1, 6)):
         out.append(dict(name=f"mirjalili-m{m}", problem="mirjalili", m=m, devices=1, cost=2 * m, seed=seed))
     out.append(dict(name="forest", problem="forest", devices=1, cost=1, seed=seed))
+    # the same obligations for an instance created after sibling instances (one parameter changed each) in the same process
+    for j in [dict(name="de_moor-m2-L2-lifo", problem="de_moor", m=2, L=2, policy="lifo"), dict(name="hendrix-m2", problem="hendrix", m=2),
+              dict(name="mirjalili-m2", problem="mirjalili", m=2), dict(name="forest", problem="forest")]:
+        out.append(dict(j, name=j["name"] + "-after-siblings", history=True, devices=1, cost=10, seed=seed))
     return out
 
 
 def make(job):
+    if job.get("history") and not shipped.HISTORY:
+        with shipped.history():
+            return make(job)
     p = job["problem"]
     if p == "de_moor":
         return shipped.build("de_moor", max_demand=3, max_useful_life=job["m"], lead_time=job["L"],
